@@ -209,14 +209,35 @@ where
             #[cfg(feature = "tracing")]
             debug!(coalesce = %name, "Request executing as leader");
 
+            // The key is registered already; if `inner.call` panics there is no leader
+            // future whose `Drop` would release it, so release it while unwinding.
+            let mut registered = Registered {
+                in_flight: &self.in_flight,
+                key: Some(key),
+            };
             let future = self.inner.call(request);
+            let key = registered.key.take();
             let in_flight = Arc::clone(&self.in_flight);
 
             CoalesceFuture::Leading {
                 future: Box::pin(future),
-                key: Some(key),
+                key,
                 in_flight,
             }
+        }
+    }
+}
+
+/// Releases a freshly registered key unless the leader future takes it over.
+struct Registered<'a, K: Hash + Eq + Clone, T: Clone, E: Clone> {
+    in_flight: &'a InFlight<K, T, E>,
+    key: Option<K>,
+}
+
+impl<K: Hash + Eq + Clone, T: Clone, E: Clone> Drop for Registered<'_, K, T, E> {
+    fn drop(&mut self) {
+        if let Some(k) = self.key.take() {
+            self.in_flight.cancel(&k);
         }
     }
 }
